@@ -55,7 +55,9 @@ mod annotation {
 #[derive(Clone, Copy)]
 enum TokenOp { Colon, Other(u8) }
 #[derive(Clone, Copy)]
-enum TokenContent { Operator(TokenOp), Other(u8) }
+enum Keyword { If, Other(u8) }
+#[derive(Clone, Copy)]
+enum TokenContent { Operator(TokenOp), Keyword(Keyword), Other(u8) }
 #[derive(Clone, Copy)]
 struct Token(Location, TokenContent);
 #[verifier::external_body]
@@ -143,6 +145,20 @@ mod expr {
 //@attr #[derive(Clone, Copy)]
 //@end
 //@extract crates/samlang-ast/src/source.rs :: mod expr / struct Unary
+//@keeppub
+//@end
+  /// the condition of an if-else is only carried into the node
+  #[verifier::external_body]
+  #[verifier::accept_recursive_types(T)]
+  pub struct IfElseCondition<T: Clone> { _p: core::marker::PhantomData<T> }
+//@extract crates/samlang-ast/src/source.rs :: mod expr / struct Block
+//@keeppub
+//@fields common
+//@end
+//@extract crates/samlang-ast/src/source.rs :: mod expr / enum IfElseOrBlock
+//@keeppub
+//@end
+//@extract crates/samlang-ast/src/source.rs :: mod expr / struct IfElse
 //@keeppub
 //@end
   /// R6: the expression type reduced to the two variants built here and a rest that only has its common part
@@ -310,6 +326,27 @@ fn parse_parenthesized_expression_list(parser: &mut SourceParser, max_size: usiz
       // the node built for a prefix operator runs from the operator token to the end of its argument
       r matches expr::E::Unary(n) && *n.argument == argument && n.operator is NEG
         && encloses(n.common.loc, peeked_loc) && encloses(n.common.loc, argument.range()),  // :prefix_expression_range_encloses_operator_and_argument
+//@end
+
+// ---- if-else: the node runs from the `if` keyword to the end of its else branch (a block or a nested if-else)
+#[verifier::external_body]
+fn parse_if_else(parser: &mut SourceParser, associated_comments: Vec<Comment>) -> (r: expr::IfElse<()>) { unimplemented!() }
+#[verifier::external_body]
+fn parse_block(parser: &mut SourceParser, associated_comments: Vec<Comment>) -> (r: expr::Block<()>) { unimplemented!() }
+
+//@extractblock crates/samlang-parser/src/source_parser.rs :: mod expression_parser / fn parse_if_else
+//@from let (e2_loc, e2) =
+//@to e2: Box::new(e2), }
+//@wrap fn if_else_node(parser: &mut SourceParser, peeked_loc: Location, e2_preceding_comments: Vec<Comment>, associated_comments: Vec<Comment>, condition: expr::IfElseCondition<()>, e1: expr::Block<()>) -> (r: expr::IfElse<()>)
+//@contract
+    ensures
+      *r.e1 == e1,
+      encloses(r.common.loc, peeked_loc),
+      // the range recorded for the else branch is the range of the branch that was parsed, and the node encloses it
+      match *r.e2 {
+        expr::IfElseOrBlock::IfElse(e) => encloses(r.common.loc, e.common.loc),
+        expr::IfElseOrBlock::Block(b) => encloses(r.common.loc, b.common.loc),
+      },  // :if_else_range_runs_from_the_keyword_over_the_else_branch
 //@end
 
 // =====================================================================================
